@@ -199,7 +199,7 @@ func (e *explainer) explain(goal ast.Atom, depth int) []*ProofNode {
 
 	var proofs []*ProofNode
 
-	if e.isEDB(goal.Predicate) && e.store.Contains(goal) {
+	if (e.isEDB(goal.Predicate) || e.isInitialFact(goal)) && e.store.Contains(goal) {
 		proofs = append(proofs, &ProofNode{
 			ID:   edbProofID(goal),
 			Fact: goal,
@@ -366,6 +366,23 @@ func (e *explainer) isEDB(p ast.PredicateSym) bool {
 	}
 	_, ok := e.program.EdbPredicates[p]
 	return ok
+}
+
+// isInitialFact reports whether goal is stated as a fact (unit clause) by the
+// program. Such a fact is a leaf of a proof even when its predicate also has rules.
+func (e *explainer) isInitialFact(goal ast.Atom) bool {
+	if e.program == nil {
+		return false
+	}
+	for _, f := range e.program.InitialFacts {
+		if f.Predicate != goal.Predicate {
+			continue
+		}
+		if g, err := functional.EvalAtom(f, nil); err == nil && g.Equals(goal) {
+			return true
+		}
+	}
+	return false
 }
 
 // --- helpers ---
